@@ -15,7 +15,7 @@
 From Coq Require Import List NArith Bool Arith.
 From Atlas Require Import Base.Bytes Diff.Schema Sqlite.RowsModel Sqlite.RowsProofs Sqlite.RowsWitness.
 From Atlas Require Diff.DiffModel Sqlite.PlanModel Sqlite.RowsBridge.
-From Atlas Require Import Sqlite.RowsPrefix.
+From Atlas Require Import Sqlite.RowsPrefix Sqlite.RowsFault.
 Import ListNotations.
 
 (** FULL STATEMENT (false of the faithful model, see 1a): for every database [d], change set
@@ -163,6 +163,88 @@ Proof. exact (kept_rows_values conv conv_same). Qed.
 
 End C05.
 
+(** ** round 2: generated columns changing kind, NOT NULL over existing NULLs, faults in the opener *)
+
+(** 9. A ModifyColumn -- of whatever kind, ChangeGenerated included -- is never done in place:
+    the table is rebuilt.  (An in-place DROP COLUMN + ADD COLUMN would lose what a generated column
+    showed.) *)
+Theorem C05_modify_column_forces_rebuild :
+  forall cs n k, In (ModifyColumn n k) cs -> alterable cs = false.
+Proof. exact modify_forces_rebuild. Qed.
+
+(** 10. Kind pairs.  copyRows decides by the kind of the *new* column only:
+    new generated (VIRTUAL or STORED; old regular, VIRTUAL, STORED, other expression): not part of the
+    INSERT, the engine computes it;
+    new regular under a ModifyColumn (old regular, VIRTUAL or STORED): paired with the old column of
+    the same name -- wrapped in IFNULL exactly when it is NOT NULL with a DEFAULT and nullability or
+    default changed.  By 1b / 8' (whose [cold] may be generated: rows hold what generated columns
+    show) the new regular column then holds, row by row, the value the generated column showed. *)
+Theorem C05_generated_kind_pairs :
+  forall cs c,
+  (rc_gen c = true -> kept cs c = None) /\
+  (forall k, rc_gen c = false ->
+     find_change (rc_name c) cs None = POk (Some (ModifyColumn (rc_name c) k)) ->
+     kept cs c = Some (if rc_notnull c && has_default c && change_is k ChangeNullOrDefault
+                       then EIfNull (rc_name c) (rc_defval c) else ECol (rc_name c))).
+Proof. intros cs c. split; [apply kept_new_generated|intros k; apply kept_new_regular_modified]. Qed.
+
+(** 11. NOT NULL over existing NULLs: for a column that is NOT NULL with a DEFAULT in the desired
+    table, either bit of the change -- ChangeNull alone (the default was there already), ChangeDefault
+    alone, both, or one of them together with ChangeType / ChangeGenerated -- makes copyRows read it
+    through IFNULL(col, default): by 1b every NULL becomes the default, and by 4 the copy cannot trip
+    over the column's own NOT NULL constraint as long as the default is not NULL. *)
+Theorem C05_notnull_default_wrapped :
+  forall cs c k,
+  rc_gen c = false -> rc_notnull c = true -> has_default c = true ->
+  find_change (rc_name c) cs None = POk (Some (ModifyColumn (rc_name c) k)) ->
+  N.testbit k 4 = true \/ N.testbit k 6 = true ->     (* ChangeNull = 2^4, ChangeDefault = 2^6 *)
+  kept cs c = Some (EIfNull (rc_name c) (rc_defval c)) /\ ifnull_wrapped cs c = true.
+Proof. exact notnull_default_wrapped. Qed.
+
+Section C05_faults.
+Variable conv : str -> str -> value -> value.
+Variable genv : str -> rcol -> row -> value.
+
+(** 12. `schema apply --tx-mode file` with one statement of the opener / closer / plan failing with
+    "database is locked" ([schema_apply_f]; without a fault it is the [schema_apply] of 8):
+    the tables afterwards are the tables before, or exactly those of the fault-free run. *)
+Theorem C05_schema_apply_faults :
+  forall f d cs d' r,
+  schema_apply_f conv genv TxFile f d cs = Some (d', r) ->
+  d_tables d' = d_tables d \/
+  (exists d0, schema_apply conv genv TxFile d cs = Some (d0, None) /\ d_tables d' = d_tables d0).
+Proof. exact (C05_schema_apply_faults_lemma conv genv). Qed.
+
+Theorem C05_schema_apply_f_none :
+  forall mode d cs, schema_apply_f conv genv mode FNone d cs = schema_apply conv genv mode d cs.
+Proof. exact (schema_apply_f_none conv genv). Qed.
+
+(** 13. The opener.  Whatever fails in OpenTx, the tables are untouched; when OpenTx succeeds the
+    plan starts inside the transaction with enforcement *off*; and when enforcement is on and the
+    pragma that switches it off fails, OpenTx reports it and nothing else happens: no BEGIN, no
+    statement of the plan (the state is the one it found). *)
+Theorem C05_opener_faults :
+  forall f d,
+  d_tables (fst (OpenTx_f f d)) = d_tables d /\
+  (snd (OpenTx_f f d) = None -> d_fk (fst (OpenTx_f f d)) = false /\ d_intx (fst (OpenTx_f f d)) = true).
+Proof. exact OpenTx_f_spec. Qed.
+
+Theorem C05_set_off_fault_runs_nothing :
+  forall d cs p, d_fk d = true -> PlanChanges cs = POk p ->
+  schema_apply_f conv genv TxFile FSetFKOff d cs = Some (d, Some ELocked).
+Proof. exact (set_off_fault_stops conv genv). Qed.
+
+(** 14. A fault at COMMIT, or at the foreign_key_check before it, is reported and leaves every
+    table as it was. *)
+Theorem C05_commit_faults_unchanged :
+  forall f d cs d' r,
+  f = FCommit \/ (f = FCheckAfter /\ d_fk d = true) ->
+  schema_apply_f conv genv TxFile f d cs = Some (d', r) ->
+  r <> None /\ d_tables d' = d_tables d.
+Proof. exact (commit_faults_unchanged conv genv). Qed.
+
+End C05_faults.
+
 (** 2'. The engine-side premise of 2 is necessary: inside a transaction that was opened with
     foreign_keys = on (a plain sql.Tx handed to sqlite.Open; `schema apply` goes through
     sqlite.OpenTx, which switches enforcement off before BEGIN) the bracket is a no-op and
@@ -220,6 +302,14 @@ Print Assumptions C05_shared_planner_same_pairing.
 Print Assumptions C05_no_prefix_loses_rows.
 Print Assumptions C05_schema_apply.
 Print Assumptions C05_kept_rows_values.
+Print Assumptions C05_modify_column_forces_rebuild.
+Print Assumptions C05_generated_kind_pairs.
+Print Assumptions C05_notnull_default_wrapped.
+Print Assumptions C05_schema_apply_faults.
+Print Assumptions C05_schema_apply_f_none.
+Print Assumptions C05_opener_faults.
+Print Assumptions C05_set_off_fault_runs_nothing.
+Print Assumptions C05_commit_faults_unchanged.
 Print Assumptions C05_values_identical_refuted.
 Print Assumptions C05_rows_preserved_except.
 Print Assumptions C05_others_untouched.
@@ -341,3 +431,63 @@ Example C05_self_reference_needs_pragma :
   (exists d' t', ApplyChanges conv0 genv0 (mkDb [w6_t] true true) w6_cs = Some (EOk d') /\
                  find_et sT (d_tables d') = Some t' /\ length (et_rows t') = 1).
 Proof. split; eexists; eexists; vm_compute; repeat split. Qed.
+
+(** ** round 2 instances *)
+Definition sG : str := [103]%N.   (* g *)
+Definition gcol (n ty : str) (stored : bool) : rcol := mkRcol n ty false DNone VNull true stored false false.
+
+(** 9 / 10: a VIRTUAL generated column g (shown values 'x', NULL) becomes a regular nullable column,
+    the only change of the table: the table is rebuilt and g holds what it showed; the reverse
+    change (regular -> STORED) leaves g out of the INSERT *)
+Definition w7_db : db :=
+  mkDb [mkEtable sT [col sId tyInt true; gcol sG tyText false] []
+          [[(sId, v1); (sG, vx)]; [(sId, v2); (sG, VNull)]]] true false.
+Definition w7_cs : list schange :=
+  [ModifyTable (mkTdef sT [col sId tyInt true; col sG tyText false] [] []) [ModifyColumn sG ChangeGenerated]].
+Example C05_generated_to_regular_nonvacuous :
+  exists d' tnew,
+    schema_apply conv0 genv0 TxFile w7_db w7_cs = Some (d', None) /\
+    alterable [ModifyColumn sG ChangeGenerated] = false /\
+    find_et sT (d_tables d') = Some tnew /\
+    et_rows tnew = [[(sId, v1); (sG, vx)]; [(sId, v2); (sG, VNull)]] /\
+    map rc_gen (et_cols tnew) = [false; false] /\
+    copyRows (mkTdef sT [] [] []) (mkTdef sZ [col sId tyInt true; gcol sG tyText true] [] [])
+             [ModifyColumn sG ChangeGenerated] = POk [SCopyRows sZ [sId] [ECol sId] sT].
+Proof. eexists. eexists. vm_compute. repeat split. Qed.
+
+(** 11: v is nullable with DEFAULT 'd' already and becomes NOT NULL -- only ChangeNull (16); and
+    nullability together with the type (ChangeNull|ChangeType = 48): the plan goes through, the NULL
+    holds the default *)
+Definition w8_db : db :=
+  mkDb [mkEtable sT [col sId tyInt true; col_d sV tyText false vd] []
+          [[(sId, v1); (sV, VNull)]; [(sId, v2); (sV, vx)]]] true false.
+Definition w8_cs (k : N) (ty : str) : list schange :=
+  [ModifyTable (mkTdef sT [col sId tyInt true; col_d sV ty true vd] [] []) [ModifyColumn sV k]].
+Example C05_notnull_default_nonvacuous :
+  (exists d' tnew, schema_apply conv0 genv0 TxFile w8_db (w8_cs ChangeNull tyText) = Some (d', None) /\
+     find_et sT (d_tables d') = Some tnew /\
+     et_rows tnew = [[(sId, v1); (sV, vd)]; [(sId, v2); (sV, vx)]]) /\
+  (exists d' tnew, schema_apply conv0 genv0 TxNone w8_db (w8_cs (N.lor ChangeNull ChangeType) tyInt) = Some (d', None) /\
+     find_et sT (d_tables d') = Some tnew /\
+     et_rows tnew = [[(sId, v1); (sV, vd)]; [(sId, v2); (sV, vx)]]) /\
+  N.testbit ChangeNull 4 = true /\ N.testbit (N.lor ChangeNull ChangeType) 4 = true /\ N.testbit ChangeDefault 6 = true.
+Proof. split; [|split]; [eexists; eexists; vm_compute; repeat split ..|repeat split]. Qed.
+
+(** 12 / 13: the cascade scenario of 2' with _fk=1 through --tx-mode file: the fault-free run and the
+    run whose restoring pragma fails keep the child's two rows, a fault at the pragma that switches
+    enforcement off (or anywhere up to COMMIT) changes nothing at all *)
+Example C05_faults_nonvacuous :
+  (exists d', schema_apply_f conv0 genv0 TxFile FNone (w3_db true false) w3_cs = Some (d', None) /\
+              find_et sC (d_tables d') = Some w3_c) /\
+  schema_apply_f conv0 genv0 TxFile FSetFKOff (w3_db true false) w3_cs = Some (w3_db true false, Some ELocked) /\
+  (forall f, In f [FQueryFK; FBegin; FCheckBefore; FStmt 0; FStmt 3; FStmt 5; FCheckAfter; FCommit] ->
+     exists d', schema_apply_f conv0 genv0 TxFile f (w3_db true false) w3_cs = Some (d', Some ELocked) /\
+                d_tables d' = [w3_p; w3_c]) /\
+  (exists d', schema_apply_f conv0 genv0 TxFile FRestoreFK (w3_db true false) w3_cs = Some (d', Some ELocked) /\
+              find_et sC (d_tables d') = Some w3_c /\ d_fk d' = false).
+Proof.
+  split; [eexists; vm_compute; split; reflexivity|]. split; [vm_compute; reflexivity|]. split.
+  - intros f Hf. simpl in Hf.
+    repeat (destruct Hf as [<-|Hf]; [eexists; vm_compute; split; reflexivity|]). contradiction.
+  - eexists. vm_compute. repeat split.
+Qed.
